@@ -21,6 +21,9 @@ class InnerSubscription(abc.DisposableBase):
     def dispose(self) -> None:
         with self.lock:
             if not self.subject.is_disposed and self.observer:
-                if self.observer in self.subject.observers:
-                    self.subject.observers.remove(self.observer)
+                # the observer list is also mutated by the subject (under its
+                # lock) when it terminates or is disposed
+                with self.subject.lock:
+                    if self.observer in self.subject.observers:
+                        self.subject.observers.remove(self.observer)
                 self.observer = None
